@@ -6,7 +6,9 @@ CACHE = os.path.join(ROOT, '.cache')
 COQ = os.path.join(ROOT, 'coq')
 OCAML = os.path.join(ROOT, 'ocaml')
 HARNESS = os.path.join(ROOT, 'harness')
-EVIDENCE = os.path.join(ROOT, 'evidence')
+# runs against a scratch repository (VERIF_REPO, seeded changes) must not overwrite the evidence of /repo
+_SCRATCH = os.path.realpath(REPO) != '/repo'
+EVIDENCE = os.path.join(CACHE, 'evidence-scratch') if _SCRATCH else os.path.join(ROOT, 'evidence')
 REPLAYS = os.path.join(ROOT, 'replays')
 KNOWN = os.path.join(ROOT, 'known_findings.json')
 HARNESS_TARGET = os.path.join(CACHE, 'harness-target')
